@@ -25,7 +25,8 @@ type callGraph struct {
 	implCache  map[string][]*ssa.Function
 	fieldStore map[*types.Var][]ssa.Value // func-typed struct fields -> stored values
 	globStore  map[*ssa.Global][]ssa.Value
-	unresolved map[string]bool // dynamic call sites with no resolvable target (reported in evidence notes)
+	unresolved map[string]bool                // dynamic call sites with no resolvable target (reported in evidence notes)
+	paramArgs  map[*ssa.Parameter][]ssa.Value // arguments passed at static call sites / invokes (context-insensitive binding)
 }
 
 type fnSet map[*ssa.Function]bool
@@ -53,6 +54,31 @@ type cgEdge struct {
 
 func newCallGraph(u *Universe) *callGraph {
 	g := &callGraph{u: u, implCache: map[string][]*ssa.Function{}, fieldStore: map[*types.Var][]ssa.Value{}, globStore: map[*ssa.Global][]ssa.Value{}, unresolved: map[string]bool{}}
+	g.paramArgs = map[*ssa.Parameter][]ssa.Value{}
+	for _, f := range u.RepoFuncs {
+		allInstrs(f, func(i ssa.Instruction) {
+			c := callOf(i)
+			if c == nil {
+				return
+			}
+			var targets []*ssa.Function
+			if c.IsInvoke() {
+				targets = g.invokeTargets(c)
+			} else if s := c.StaticCallee(); s != nil {
+				targets = []*ssa.Function{orig(s)}
+			}
+			args := callArgs(c)
+			for _, t := range targets {
+				for k, p := range t.Params {
+					if k < len(args) {
+						if _, isSig := p.Type().Underlying().(*types.Signature); isSig {
+							g.paramArgs[p] = append(g.paramArgs[p], args[k])
+						}
+					}
+				}
+			}
+		})
+	}
 	for _, f := range u.RepoFuncs {
 		allInstrs(f, func(i ssa.Instruction) {
 			st, ok := i.(*ssa.Store)
@@ -176,6 +202,15 @@ func (g *callGraph) funcValues(v ssa.Value, env cgEnv, depth int) fnSet {
 			out[orig(f)] = true
 		}
 	case *ssa.Parameter:
+		if env == nil {
+			// context-insensitive: everything any caller passes
+			for _, a := range g.paramArgs[x] {
+				for f := range g.funcValues(a, nil, depth+1) {
+					out[f] = true
+				}
+			}
+			break
+		}
 		for f := range env[x] {
 			out[f] = true
 		}
